@@ -42,6 +42,9 @@ BASES = [
     ('\\newcommand{', '}{X} A'),
     ('\\def\\foo', '{X} \\foo A'),
     ('\\def\\foo#1#2{', '} \\foo A'),
+    ('\\def\\foo', '{#1} \\foo A'),
+    ('\\def\\foo#1', '{#2} \\foo A B'),
+    ('\\def\\foo[#1]', '{#3#1} \\foo[A]'),
     ('\\newtheorem{', '}{Thm}'),
     ('\\newtheorem{t}{T}\\begin{t}[', '] A \\end{t}'),
     ('\\begin{proof}[', '] A \\end{proof}'),
